@@ -84,3 +84,21 @@ Example C14_nonvacuous_switched_to_unordered :
   map (@tr_mmsi Z) (trk_n_latest_tracks (fst run) 2) = [333; 222] /\
   map (@tr_mmsi Z) (trk_n_latest_tracks (fst run) 5) = [333; 222; 111].
 Proof. vm_compute. repeat split. Qed.
+
+(* non-vacuity: an ORDERED tracker fed through the public insert_or_update() with non-decreasing timestamps (the history
+   satisfies the caveat trkc_run_ok): the update of 111 moves it behind 222, the last n of the table are the newest *)
+Example C14_nonvacuous_insert_or_update :
+  let q := @trk_env_quiet Z in
+  let h := [(q, OpInsertOrUpdate 0 (mkMsg 111 [MPresent (Some 1)]) (Some 1));
+            (q, OpInsertOrUpdate 0 (mkMsg 222 [MPresent (Some 2)]) (Some 2));
+            (q, OpInsertOrUpdate 0 (mkMsg 111 [MPresent (Some 3)]) (Some 3))] in
+  let st := fst (trkc_run 1 (trk_init None true) h) in
+  trkc_run_ok 1 (trk_init None true) h /\
+  map (@tr_mmsi Z) (trk_tracks st) = [222; 111] /\
+  map (@tr_mmsi Z) (trk_n_latest_tracks st 1) = [111].
+Proof.
+  split; [|vm_compute; repeat split].
+  simpl. repeat match goal with |- env_ok _ /\ _ => split; [apply env_ok_quiet|] | |- _ /\ _ => split end; try exact Logic.I.
+  all: unfold out_of_order; intros (_ & k & tr & I & L); vm_compute in I;
+       repeat (destruct I as [I|I]; [inversion I; subst; vm_compute in L; discriminate|]); destruct I.
+Qed.
